@@ -11,7 +11,8 @@ signatures (zero-size array elements, maximal nesting, unterminated containers, 
 types, message types 0 and 5+.
 Oracle: (1) interpreter-step budget per delivery (sys.monitoring LINE events; linear in the
 bytes delivered so far on that connection) - non-termination is detected deterministically,
-not by wall clock; (2) decoded values have at most c x input-length nodes; (3) the delivery
+not by wall clock; (2) decoded values have at most c x input-length nodes and a delivery
+allocates at most 4 MiB + 512 bytes per byte received (tracemalloc peak); (3) the delivery
 either produced a message or cost exactly that connection; (4) containment: the other
 peers' next call completes within the drain bound and the bus no longer knows the dropped
 connection.
@@ -28,7 +29,7 @@ import txdbus.message as t_message
 
 PROPERTY = 'C05'
 LEVEL = 'exploration'
-QUICK_RUNS = 20000
+QUICK_RUNS = 12000
 QUICK_BUDGET_S = 60
 THOROUGH_BUDGET_S = 900
 RULE = ('valid traffic of 3-20 messages with 1-4 corrupted frames (8 mutation kinds incl. 24 '
@@ -264,19 +265,37 @@ def scenario(ctx):
         sim.probe('budget-margin-over-10x')
 
 
+MEM_A = 4 * 1024 * 1024
+MEM_B = 512
+RLIMIT_AS = 6 * 1024 ** 3        # per worker: a runaway allocation becomes MemoryError, not an OOM kill
+
+
 def guarded_deliver(sim, counter, pipe, n, delivered, what):
-    """deliver under the step budget; returns the escaping exception (or None)"""
+    """deliver under the step budget and the allocation budget; returns the escaping
+    exception (or None)"""
+    import tracemalloc
     delivered[0] += n
     limit = BUDGET_A + BUDGET_B * delivered[0]
+    tracemalloc.start(1)
+    base = 0
     counter.start(limit)
     try:
         err = net.deliver(sim, pipe, n)
     except BudgetExceeded:
         counter.stop()
+        tracemalloc.stop()
         raise Violation('C05/step-budget', what[0] or 'valid traffic',
                         'a delivery of %d bytes (%d so far on this connection) exceeded %d '
                         'interpreter steps; last mutation: %s' % (n, delivered[0], limit, what[0]))
     used = counter.stop()
+    peak = tracemalloc.get_traced_memory()[1] - base
+    tracemalloc.stop()
+    if peak > MEM_A + MEM_B * delivered[0] or isinstance(err, MemoryError):
+        raise Violation('C05/allocation', what[0] or 'valid traffic',
+                        'a delivery of %d bytes (%d so far on this connection) allocated %d bytes '
+                        '(budget %d); last mutation: %s%s'
+                        % (n, delivered[0], peak, MEM_A + MEM_B * delivered[0], what[0],
+                           '; MemoryError' if isinstance(err, MemoryError) else ''))
     return err
 
 
